@@ -325,6 +325,16 @@ impl<'a> Ctx<'a> {
         file.add_export(name, var)
     }
 
+    pub(crate) fn register_export_replacing(&self, name: String, var: PrimitiveFlagsPair) -> Result<()> {
+        let file = self
+            .function
+            .location()
+            .upgrade()
+            .context("could not upgrade reference to file")?;
+        file.replace_export(name, var);
+        Ok(())
+    }
+
     /// Store a variable to this function. Will get dropped when the function goes out of scope.
     pub(crate) fn register_variable(&self, name: Cow<'static, str>, var: Primitive) -> Result<()> {
         self.call_stack.borrow_mut().register_variable(name, var)
